@@ -467,7 +467,8 @@ func stepBoundaries() {
 			}
 		}
 		if len(ents) != wantEnts {
-			r.Violation(map[string]string{"kind": "leftover-after-writers-returned", "monitor": "step-boundaries"}, fmt.Sprintf("%d directory entries after all writers returned, expected %d", len(ents), wantEnts), map[string]any{"schedule": pl.order})
+			// leftovers as such are not forbidden by the property (only mistaking them for entries is): observed, not judged
+			r.Event("directory-entries-differ-from-stored-urls-after-writers-returned")
 		}
 		s.mu.Lock()
 		s.byGoid = map[int64]*wstate{}
@@ -627,7 +628,7 @@ func afterKill(dir, url string, oldID, newID int64, newAllowed bool, otherURL st
 		// a cache that derived file names from URL text could serve a leftover: ask for it by every spelling
 		universe = append(universe, e.Name(), filepath.Join(dir, e.Name()), "./"+e.Name())
 		if !strings.HasPrefix(e.Name(), "notation-") {
-			r.Violation(map[string]string{"kind": "unexpected-file-after-kill", "monitor": where}, "after the kill the cache directory holds a file that is neither an entry nor a temporary file: "+e.Name(), wit)
+			r.Event("leftover-with-unfamiliar-name-after-kill") // still probed below under every spelling; the name itself is not judged
 		}
 	}
 	for _, u := range universe {
